@@ -346,7 +346,8 @@ def oparse (w : World) (expect : String) (args : List String) : World × String 
           | .ok ob => if validDeep ob then "ok" else "err"
           | .error .unmodelled => "-"
           | .error _ => "err"
-      if ast == ["invalid"] then (w', s!"err dataInvalid | {expect} | pe:dataInvalid")
+      if ast == ["nonutf8"] then (w', "unmodelled | - | pu")
+      else if ast == ["invalid"] then (w', s!"err dataInvalid | {expect} | pe:dataInvalid")
       else match readAST ast with
         | none => (w', "bad-ast")
         | some v =>
